@@ -385,3 +385,6 @@ def b_earth(rng, tier):
         except Exception as ex:
             ok, det = False, repr(ex)
         yield ((round(dist, 6), round(lon, 4), round(lat, 4), round(olat, 4), round(sid, 4)), ok, det)
+
+
+P.frame_check()
